@@ -64,6 +64,8 @@ print(json.dumps(out))
 """
 
 
+NON_FINITE_KEY = "C15:non-finite-float-magnitude-through-pydantic-json-comes-back-as-None"
+
 def run(ctx):
     # the last shard runs in a process whose integer-string-conversion limit was changed, as programs that handle
     # big numbers do (0 = no limit, the usual answer to "Exceeds the limit (4300 digits)"): decoding must not care
@@ -315,6 +317,41 @@ def run(ctx):
                 ctx.violation(f"C15:{cname}:quantity-magnitude-type-changed", f"{cname} round trip of {q!r} returned {y!r}", case)
         if i % 100 == 5:
             ctx.sample({"unit": model.show(term), "quantity": repr(q)[:120], "json": json.dumps(q, cls=MeasuredJSONEncoder)[:160] if not isinstance(mag, Decimal) or True else ""})
+
+    # ---- magnitudes that are not finite: a Decimal infinity stays a Decimal infinity, a float one a float one, a NaN a NaN
+    # of its type (two NaNs are never equal, so the type and the NaN-ness are what can be compared) ------------------
+    import math
+    U_ = m.Unit._by_name
+    for u in (U_["meter"], m.Prefix._by_name["kilo"] * U_["meter"], U_["meter"] / U_["second"], U_["newton"]):
+        for mag in (Decimal("Infinity"), Decimal("-Infinity"), float("inf"), float("-inf"), Decimal("NaN"), float("nan")):
+            q = Q(mag, u)
+            for cname, fn in codecs.items():
+                ctx.count("evaluations")
+                ctx.count(f"non_finite_magnitudes_x_codecs/{type(mag).__name__}")
+                ctx.distinct((cname, "non-finite", str(mag), str(u)))
+                case = {"quantity": repr(q), "codec": cname}
+                # the known finding is stated here, not asked of the library: a *float* that is not finite, through one of the
+                # three codecs that let pydantic write the JSON, comes back as a quantity whose magnitude is None
+                through_pydantic_json = type(mag) is float and cname in ("pydantic-json", "pydantic-json-mode-python", "pydantic-same-document-twice")
+                try:
+                    y = fn(q)
+                except Exception as e:
+                    if cname in ("pickle0", "pickle1") and isinstance(e, TypeError):
+                        continue
+                    if through_pydantic_json and isinstance(e, TypeError) and "NoneType" in str(e):
+                        ctx.violation(NON_FINITE_KEY, f"{cname} round trip of {q!r}: the magnitude was written as null and read back as None ({e})", case)
+                        continue
+                    ctx.violation(f"C15:{cname}:non-finite-quantity-raised-{type(e).__name__}", f"{cname} round trip of {q!r} raised {type(e).__name__}: {str(e)[:150]}", case)
+                    continue
+                ym = getattr(y, "magnitude", None)
+                if through_pydantic_json and isinstance(y, Q) and ym is None:
+                    ctx.violation(NON_FINITE_KEY, f"{cname} round trip of {q!r} returned {y!r}: the magnitude was written as null", case)
+                    continue
+                if cname == "json-parse_float-Decimal" and type(mag) is float and isinstance(ym, Decimal):
+                    ym = float(ym)     # the caller asked for floats to be read as Decimals
+                nan = mag != mag
+                if not isinstance(y, Q) or type(ym) is not type(mag) or (nan and ym == ym) or (not nan and ym != mag):
+                    ctx.violation(f"C15:{cname}:non-finite-magnitude-changed:{type(mag).__name__}", f"{cname} round trip of {q!r} returned {y!r}", case)
 
     # ---- dump -> name/alias -> load, in one process ---------------------------------------------------
     for k in range(6 if ctx.tier == "quick" else 60):
